@@ -306,3 +306,85 @@ def mk_pivot_two_index_fields(finding=False):
 
 _add(mk_pivot_two_index_fields())
 _add(mk_pivot_two_index_fields(finding=True))
+
+
+# ---------------------------------------------------------------- set_index_hierarchy: rows move with their keys
+
+def body_set_index_hierarchy(env, o0, o1, o2, drop, reorder):
+    from vf import rt
+    outs = [concretize(v, 0, 1) for v in (o0, o1, o2)]
+    drop, reorder = bool(drop), bool(reorder)
+
+    def run():
+        sf = env.sf
+        from static_frame.core.exception import ErrorInitIndex
+        inner = [5, 6, 7]
+        pay = [101, 102, 103]
+        f = sf.Frame.from_items((('o', env.array(outs, 'int64')), ('i', env.array(inner, 'int64')), ('v', env.array(pay, 'int64'))), index=[10, 11, 12])
+        grouped = not (outs[0] == outs[2] and outs[0] != outs[1])
+        try:
+            r = f.set_index_hierarchy(['o', 'i'], drop=drop, reorder_for_hierarchy=reorder)
+            got = ['ok', sorted([[env.obs(list(t)), env.obs(row)] for t, row in zip(r.index, r.values.tolist())], key=lambda p: p[0]),
+                   env.obs(r.columns.values.tolist())]
+            if reorder:
+                # equal outer labels are adjacent afterwards
+                seen, ok = [], True
+                for t in r.index:
+                    if seen and t[0] != seen[-1] and t[0] in seen:
+                        ok = False
+                    seen.append(t[0])
+                got.append(ok)
+        except ErrorInitIndex:
+            got = ['rejected']
+        if not reorder and not grouped:
+            exp = ['rejected']
+        else:
+            rows = [[[outs[k], inner[k]], ([pay[k]] if drop else [outs[k], inner[k], pay[k]])] for k in range(3)]
+            exp = ['ok', sorted(rows, key=lambda p: p[0]), ['v'] if drop else ['o', 'i', 'v']]
+            if reorder:
+                exp.append(True)
+        return got, exp
+    return rt.untraced(run)
+
+
+_add(Cond('set_index_hierarchy_rows_follow_keys', [('o0', 'int'), ('o1', 'int'), ('o2', 'int'), ('drop', 'bool'), ('reorder', 'bool')], body_set_index_hierarchy,
+        ranges={'o0': (0, 1), 'o1': (0, 1), 'o2': (0, 1)},
+        functions=['Frame.set_index_hierarchy'],
+        bounds='3-row frame; outer key column symbolic in 0..1 (grouped or not), inner key distinct; drop and reorder_for_hierarchy symbolic',
+        route='Frame.set_index_hierarchy([o, i], drop, reorder_for_hierarchy): every row labelled (o, i) carries exactly the cells of the source row with those keys; ungrouped keys are rejected unless reordering is asked for', timeout=300))
+
+
+# ---------------------------------------------------------------- pivot_stack / pivot_unstack on hierarchical columns of differing dtypes
+
+STACK_KINDS = (('<U1', ('l', 'r')), ('<U6', ('left', 'right')), ('int64', (3, 4)), ('float64', (1.5, 2.5)), ('bool', (True, False)))
+
+
+def body_stack_hier(env, k0, k1, level):
+    from vf import rt
+    ka, kb, level = concretize(k0, 0, 4), concretize(k1, 0, 4), concretize(level, 0, 1)
+
+    def run():
+        sf = env.sf
+        cols = [('x', 'p'), ('y', 'p')] if level == 0 else [('p', 'x'), ('p', 'y')]     # moving `level` leaves ONE remaining label p
+        a, b = STACK_KINDS[ka], STACK_KINDS[kb]
+        f = sf.Frame.from_items(((cols[0], env.array(list(a[1]), a[0])), (cols[1], env.array(list(b[1]), b[0]))), index=[10, 11],
+                                columns_constructor=sf.IndexHierarchy.from_labels)
+        st = f.pivot_stack(level)
+        got_st = sorted([[env.obs(list(t)), env.obs(row)] for t, row in zip(st.index, st.values.tolist())], key=lambda p: [str(x) for x in p[0]])
+        exp_st = sorted([[[10 + r, mv], [vals[r]]] for mv, vals in (('x', a[1]), ('y', b[1])) for r in range(2)], key=lambda p: [str(x) for x in p[0]])
+        back = st.pivot_unstack(-1)
+        cells = {}
+        for r, row in zip(back.index.values.tolist(), back.values.tolist()):
+            for c, v in zip(back.columns, row):
+                cells[(r, c[-1])] = v
+        got_back = [[r, mv, env.obs(cells.get((r, mv), 'absent'))] for r in (10, 11) for mv in ('x', 'y')]
+        exp_back = [[10 + r, mv, vals[r]] for r in range(2) for mv, vals in (('x', a[1]), ('y', b[1]))]
+        return [got_st, env.obs(st.columns.values.tolist()), sorted(got_back, key=str)], [exp_st, ['p'], sorted(exp_back, key=str)]
+    return rt.untraced(run)
+
+
+_add(Cond('pivot_stack_hierarchical_columns_dtypes', [('k0', 'int'), ('k1', 'int'), ('level', 'int')], body_stack_hier,
+        ranges={'k0': (0, 4), 'k1': (0, 4), 'level': (0, 1)},
+        functions=['Frame.pivot_stack', 'pivot_index_map'],
+        bounds='2-row frame with two columns under depth-2 labels sharing one remaining label; the dtype of each column symbolic over (<U1, <U6, int64, float64, bool) (same kind / different width in both orders, different kinds); the moved level symbolic',
+        route='pivot_stack(level) on hierarchical columns: every source cell arrives unchanged at (row + moved label, remaining label) whatever the dtypes that meet in the stacked column; pivot_unstack brings every cell back', timeout=300))
